@@ -1,6 +1,6 @@
 From Coq Require Import Extraction ExtrOcamlBasic NArith ZArith.
-From LTV.C15 Require Import Model.
+From LTV.C15 Require Import Model ModelSearch.
 Set Extraction Optimize.
 Extraction Language OCaml.
 (* Z.of_N is extracted only because ocaml/conv.ml mentions the type z *)
-Extraction "extracted/c15_model.ml" init step run idspace Z.of_N sinit sstep srun.
+Extraction "extracted/c15_model.ml" init step run idspace Z.of_N sinit sstep srun search_init search_step search_complete.
